@@ -173,6 +173,44 @@ def sec_derive_ordered_entry(repo, c):
         raise TranslateError(f"{rel}: ordered templates call hirschberg {nh} times and levenshtein {nl} times; the model of the derive uses hirschberg only")
     c['DERIVE_HIRSCHBERG_CALLS'] = nh
 
+def _u8_arms(text, rel, variants):
+    """every `N_u8` literal written by a ser_bin arm or matched by a de_bin arm, attributed to the enum variant of that arm; all uses of a
+    variant must agree on one literal and the literals of one enum must be pairwise different"""
+    found = {}
+    # ser: `...::Variant(..) => { N_u8.ser_bin`   |  de: `N_u8 => ...::Variant(`  or  `N_u8 => { ... Variant(`
+    for m in re.finditer(r'(?:Self|\w+)::(\w+)\s*(?:\([^)]*\))?\s*=>\s*\{\s*(\d+)_u8\.ser_bin', text):
+        found.setdefault(m.group(1), set()).add(int(m.group(2)))
+    for m in re.finditer(r'(\d+)_u8\s*=>\s*(?:\{[^}]*?)?(?:\w+::)*?(\w+)\s*\(', text, re.S):
+        v = m.group(2)
+        if v in variants: found.setdefault(v, set()).add(int(m.group(1)))
+    # de arms whose constructor is nested deeper (Replace/Modify wrapped in the newtype)
+    for m in re.finditer(r'(\d+)_u8\s*=>\s*(.*?)(?=\n\s*\d+_u8\s*=>|\n\s*_\s*=>)', text, re.S):
+        for v in variants:
+            if re.search(r'::' + v + r'\s*\(', m.group(2)): found.setdefault(v, set()).add(int(m.group(1)))
+    tbl = []
+    for v in variants:
+        lits = found.get(v, set())
+        if len(lits) != 1:
+            raise TranslateError(f"{rel}: variant {v} is written/read with discriminants {sorted(lits)} (expected exactly one, used consistently by every ser_bin and de_bin)")
+        tbl.append(next(iter(lits)))
+    if len(set(tbl)) != len(tbl):
+        raise TranslateError(f"{rel}: discriminants {tbl} of {variants} are not pairwise different")
+    return tbl
+
+def sec_unord_wire(repo, c):
+    rel = 'src/collections/unordered_array_like.rs'; t = read(repo, rel)
+    blk = block_after(t, rel, r'mod\s+nanoserde_impls\s*\{', 'nanoserde_impls of unordered_array_like')
+    c['UA_CHANGE'] = _u8_arms(blk, rel, ['InsertMany', 'RemoveMany', 'InsertFew', 'RemoveFew', 'InsertSingle', 'RemoveSingle'])
+    c['UA_DIFF'] = _u8_arms(blk, rel, ['Replace', 'Modify'])
+    rel = 'src/collections/unordered_map_like.rs'; t = read(repo, rel)
+    blk = block_after(t, rel, r'mod\s+nanoserde_impls\s*\{', 'nanoserde_impls of unordered_map_like')
+    c['MF_CHANGE'] = _u8_arms(blk, rel, ['InsertMany', 'RemoveMany', 'InsertSingle', 'RemoveSingle'])
+    c['MF_DIFF'] = _u8_arms(blk, rel, ['Replace', 'Modify'])
+    rel = 'src/collections/unordered_map_like_recursive.rs'; t = read(repo, rel)
+    blk = block_after(t, rel, r'mod\s+nanoserde_impls\s*\{', 'nanoserde_impls of unordered_map_like_recursive')
+    c['RM_CHANGE'] = _u8_arms(blk, rel, ['Insert', 'Remove', 'Change'])
+    c['RM_DIFF'] = _u8_arms(blk, rel, ['Replace', 'Modify'])
+
 def sec_features(repo, c):
     rel = 'Cargo.toml'
     t = read(repo, rel)
@@ -188,7 +226,7 @@ def sec_features(repo, c):
         feats[mm.group(1)] = [x.strip().strip('"') for x in mm.group(2).split(',') if x.strip()]
     c['FEATURES'] = feats
 
-SECTIONS = [('ordered', sec_ordered), ('ordered_wire', sec_ordered_wire), ('rope', sec_rope), ('slots_iter', sec_slots_iter), ('derive_ordered_entry', sec_derive_ordered_entry), ('features', sec_features)]
+SECTIONS = [('ordered', sec_ordered), ('ordered_wire', sec_ordered_wire), ('rope', sec_rope), ('slots_iter', sec_slots_iter), ('unord_wire', sec_unord_wire), ('derive_ordered_entry', sec_derive_ordered_entry), ('features', sec_features)]
 
 def translate(repo):
     """returns (constants, errors-by-section)"""
@@ -223,6 +261,9 @@ def render(c, errs):
         ov = ['Replace', 'Insert', 'Delete', 'Swap']
         files['ConstsOrderedWire.v'] = HDR + "(* nanoserde discriminants of the ordered change, order: Replace Insert Delete Swap *)\n" + "\n".join(
             coq_tbl(n, c[n], ov) for n in ('ORD_SER_OWNED', 'ORD_SER_REF', 'ORD_DE')) + "\n"
+    if 'unord_wire' not in errs:
+        files['ConstsUnordWire.v'] = HDR + "(* u8 discriminants of the hand-written nanoserde impls of the unordered collection diffs, in declaration order of the variants *)\n" + "".join(
+            f"Definition {n} : list nat := [{'; '.join(map(str, c[n]))}].\n" for n in ('UA_CHANGE', 'UA_DIFF', 'MF_CHANGE', 'MF_DIFF', 'RM_CHANGE', 'RM_DIFF'))
     return files
 
 def write_if_changed(path, content):
